@@ -1379,7 +1379,10 @@ impl<'v> World<'v> {
         } else {
             // a broker DISCONNECT that the operation consumed ends the connection whatever the result says
             let peer_closed = self.sh.borrow().oracle.conns[id].peer_disconnect_consumed;
-            let now_dead = peer_closed || res.fatal() || (op == OpK::Disconnect && matches!(res, Res::Ok | Res::Transport));
+            // a disconnect() dropped after the transport accepted part of the DISCONNECT has been "called"
+            // for good: nothing may follow those bytes
+            let disc_begun = op == OpK::Disconnect && res == Res::Cancelled && self.sh.borrow().oracle.conns[id].disc_cancelled;
+            let now_dead = peer_closed || res.fatal() || disc_begun || (op == OpK::Disconnect && matches!(res, Res::Ok | Res::Transport));
             if now_dead {
                 self.dead_since = Some(after);
                 let mut sh = self.sh.borrow_mut();
@@ -1735,15 +1738,28 @@ impl<'v> World<'v> {
                 Res::Ok
             }
             OpK::Age => {
-                let ids = self.live_ids();
+                let live = self.live_ids();
+                let mut ids = live.clone();
+                for d in self.cfg.age_aliases.clone() {
+                    for l in &live {
+                        // identifiers live in 1..=65535
+                        let t = ((*l as u32 - 1 + d as u32) % 65535 + 1) as u16;
+                        if !ids.contains(&t) {
+                            ids.push(t);
+                        }
+                    }
+                }
                 let i = self.decide_arg(ids.len());
                 let target = ids[i];
                 let from = conn.session().verif_runtime().next_packet_id;
                 let steps = (target as u32 + 65535 - from as u32) % 65535;
                 self.log(|| {
                     format!(
-                        "app: {} locally failing requests later the identifier counter has gone from {} round to {} (still in flight)",
-                        steps, from, target
+                        "app: {} locally failing requests later the identifier counter has gone from {} round to {}{}",
+                        steps,
+                        from,
+                        target,
+                        if live.contains(&target) { " (still in flight)" } else { " (aliases an identifier in flight modulo a power of two)" }
                     )
                 });
                 conn.verif_session_mut().verif_set_next_packet_id(target);
